@@ -673,6 +673,7 @@ impl ElementRaw {
     ) -> Result<Element, AutosarDataError> {
         let move_element_name = move_element.element_name();
         let (_, end_pos) = self.calc_element_insert_range(move_element_name, version)?;
+        self.check_moved_element_type(move_element, move_element_name, version)?;
 
         if model == model_src {
             let src_parent = move_element.parent()?.ok_or(AutosarDataError::InvalidSubElement {
@@ -709,6 +710,7 @@ impl ElementRaw {
     ) -> Result<Element, AutosarDataError> {
         let move_element_name = move_element.element_name();
         let (start_pos, end_pos) = self.calc_element_insert_range(move_element_name, version)?;
+        self.check_moved_element_type(move_element, move_element_name, version)?;
 
         if start_pos <= position && position <= end_pos {
             if model == model_src {
@@ -729,6 +731,23 @@ impl ElementRaw {
             }
         } else {
             Err(AutosarDataError::InvalidPosition)
+        }
+    }
+
+    /// the same element name can have different element types in different parents, so a moved element
+    /// must have exactly the type that the specification of this element prescribes for that name
+    fn check_moved_element_type(
+        &self,
+        move_element: &Element,
+        move_element_name: ElementName,
+        version: AutosarVersion,
+    ) -> Result<(), AutosarDataError> {
+        match self.elemtype.find_sub_element(move_element_name, version as u32) {
+            Some((dest_type, _)) if dest_type == move_element.element_type() => Ok(()),
+            _ => Err(AutosarDataError::InvalidSubElement {
+                parent: self.element_name(),
+                element: move_element_name,
+            }),
         }
     }
 
